@@ -123,3 +123,90 @@ Definition days_to_doy (days : Z) : res Z :=
 
 Definition days_to_wday (days : Z) (monday_first : bool) : Z :=
   ((days mod 7) + (if monday_first then 0 else 1)) mod 7.
+
+(* Tøndering's ISO week formula, with the astronomical-year repair *)
+Definition days_to_wyear (days : Z) : Z :=
+  let '(year, month, day) := days_to_date days in
+  let year := if year <? 0 then year + 1 else year in
+  let a := if month <=? 2 then year - 1 else year in
+  let b := a / 4 - a / 100 + a / 400 in                       (* div_euclid *)
+  let c := (a - 1) / 4 - (a - 1) / 100 + (a - 1) / 400 in
+  let s := b - c in
+  let e := if month <=? 2 then 0 else s + 1 in
+  let f := if month <=? 2 then day - 1 + 31 * (month - 1)
+           else day + Z.quot (153 * (month - 3) + 2) 5 + 58 + s in
+  let g := (a + b) mod 7 in                                   (* rem_euclid *)
+  let d := (f + g - e) mod 7 in
+  let n := f + 3 - d in
+  if n <? 0 then 53 - Z.quot (g - s) 5
+  else if 364 + s <? n then 1
+  else Z.quot n 7 + 1.
+
+Definition months_between (first_days first_nanos second_days second_nanos : Z) : Z :=
+  let '(first_year, first_month, first_day) := days_to_date first_days in
+  let '(second_year, second_month, second_day) := days_to_date second_days in
+  let years_between := first_year - second_year in
+  let years_between :=
+    if (1 <=? first_year) && (second_year <? 1) then years_between - 1
+    else if (first_year <? 1) && (1 <=? second_year) then years_between + 1
+    else years_between in
+  let months_between := years_between * 12 + first_month - second_month in
+  let extra_month :=
+    if months_between =? 0 then 0
+    else if (0 <? months_between)
+            && ((first_day <? second_day) || ((first_day =? second_day) && (first_nanos <? second_nanos))) then -1
+    else if (months_between <? 0)
+            && ((second_day <? first_day) || ((first_day =? second_day) && (second_nanos <? first_nanos))) then 1
+    else 0 in
+  months_between + extra_month.
+
+Definition years_between (first_days first_nanos second_days second_nanos : Z) : Z :=
+  Z.quot (months_between first_days first_nanos second_days second_nanos) 12.
+
+(* ---- src/util/date/manipulate.rs ---- *)
+Definition set_year (days year : Z) : res Z :=
+  let '(_, month, day) := days_to_date days in date_to_days year month day.
+Definition set_month (days month : Z) : res Z :=
+  let '(year, _, day) := days_to_date days in date_to_days year month day.
+Definition set_day (days day : Z) : res Z :=
+  let '(year, month, _) := days_to_date days in date_to_days year month day.
+Definition set_day_of_year (days doy : Z) : res Z :=
+  let '(year, _, _) := days_to_date days in year_doy_to_days year doy false.
+
+Definition add_years (days years : Z) : res Z :=
+  let '(year, month, day) := days_to_date days in
+  let target_year := year + years in
+  let target_year := if (year <? 0) && (0 <=? target_year) then target_year + 1 else target_year in
+  if negb (in_i32b target_year) then Err (EOor NCustom 0 0 0) else
+  let day := if is_leap_year year && negb (is_leap_year target_year) && (month =? 2) && (day =? 29) then 28 else day in
+  date_to_days target_year month day.
+
+Definition sub_years (days years : Z) : res Z :=
+  let '(year, month, day) := days_to_date days in
+  let target_year := year - years in
+  let target_year := if (0 <? year) && (target_year <=? 0) then target_year - 1 else target_year in
+  if negb (in_i32b target_year) then Err (EOor NCustom 0 0 0) else
+  let day := if is_leap_year year && negb (is_leap_year target_year) && (month =? 2) && (day =? 29) then 28 else day in
+  date_to_days target_year month day.
+
+(* months : i64, negative to subtract *)
+Definition shift_months (days months : Z) : res Z :=
+  let '(year, month, day) := days_to_date days in
+  let astro_year := if year <? 0 then year + 1 else year in
+  let total_months := astro_year * 12 + month - 1 + months in
+  let target_astro_year := total_months / 12 in               (* div_euclid *)
+  let target_year := if target_astro_year <=? 0 then target_astro_year - 1 else target_astro_year in
+  if negb (in_i32b target_year) then Err (EOor NCustom 0 0 0) else
+  let target_month := total_months mod 12 + 1 in
+  let? target_day :=
+    if day <? 29 then Ok day
+    else let? '(_, mdays) := unwrap (year_month_to_doy target_year target_month) in
+         Ok (if mdays <? day then mdays else day) in
+  date_to_days target_year target_month target_day.
+Definition add_months (days months : Z) : res Z := shift_months days months.
+Definition sub_months (days months : Z) : res Z := shift_months days (- months).
+
+Definition add_days (old_days days : Z) : res Z :=
+  if in_i32b (old_days + days) then Ok (old_days + days) else Err (EOor NCustom 0 0 0).
+Definition sub_days (old_days days : Z) : res Z :=
+  if in_i32b (old_days - days) then Ok (old_days - days) else Err (EOor NCustom 0 0 0).
